@@ -25,6 +25,10 @@ def run(ctx):
         lc.simulate_and_replay(ctx, name, lc.STORE_ACTS, num, 14, ctx.seed + 11, label="store")
     for name in ["Beam", "BeamTimo", "Elastic3D", "WeakForms", "HyperElastic", "PhaseField", "InElastic"]:
         lc.simulate_and_replay(ctx, name, lc.STORE_ACTS, num // 3, 14, ctx.seed + 12, label="store")
+    # short behaviours over the few actions that decide what Result(name, iter=i) has to restore (an iteration saved before / after a solve,
+    # another mesh made current, a solve in between): dense coverage of the orders, which the long random behaviours only touch
+    for name in ["PhaseField", "Elastic", "Thermal", "HyperElastic"]:
+        lc.simulate_and_replay(ctx, name, ["SaveIter", "SetMesh", "ResultAt", "Solve", "SetIter"], num // 2, 6, ctx.seed + 13, label="result-at")
     # simulations whose stored iterations carry internal variables (InElastic): spec/InelasticCommit.tla, behaviours with SaveIter / SetIter
     # in every order replayed with content hashes of displacement and internal state
     from harness.props import c19
